@@ -52,6 +52,10 @@ def _mk_fn_behaviour(fid, ns):
         b = ns["beh"]
         return lambda kw, _bb=b: _b.apply(_bb, kw)
 
+    if ns.get("uncopyable") and n_out == 1 and not gen:
+        # the output is a value that cannot be copied or pickled; equal to the ordinary term in every other respect
+        return lambda kw, _fid=fid: rt.UTerm(rt.term(_fid, kw, 1, False))
+
     def beh(kw, _fid=fid, _n=n_out, _gen=gen):
         return rt.term(_fid, kw, _n, _gen)
 
